@@ -48,6 +48,17 @@ def _qvar(prefix='q'):
     return z3.Int(f'{prefix}!{next(_counter)}')
 
 
+def _contains_binder(t, seen=None):
+    seen = set() if seen is None else seen
+    if z3.is_quantifier(t):
+        return True
+    i = t.get_id()
+    if i in seen:
+        return False
+    seen.add(i)
+    return any(_contains_binder(c, seen) for c in t.children())
+
+
 ARRAY_DEFS = 'axiom'    # 'lambda': list contents built by z3 Lambda; 'axiom': fresh array constant + defining axiom
 
 
@@ -74,7 +85,10 @@ def forall_int(lo, hi, fn, pattern=None):
         i = _qvar()
         body = z3.Implies(z3.And(lo <= i, i < hi), fn(i))
         if pattern is not None:
-            return z3.ForAll([i], body, patterns=[pattern(i)])
+            ps = pattern(i)
+            ps = [p for p in (ps if isinstance(ps, (list, tuple)) else [ps]) if not _contains_binder(p)]
+            if ps:
+                return z3.ForAll([i], body, patterns=ps)
         return z3.ForAll([i], body)
     SIDE.append(z3.Implies(lo < hi, z3.And(lo >= 0, hi <= BOUND)))
     return z3.And(*[z3.Implies(z3.And(lo <= c, c < hi), fn(z3.IntVal(c))) for c in range(BOUND)])
@@ -554,17 +568,6 @@ class Heap:
 
     def set_alive(self, r):
         self.set('alive', z3.Store(self.get('alive', Ref, B), r, z3.BoolVal(True)))
-
-
-def _contains_binder(t, seen=None):
-    seen = set() if seen is None else seen
-    if z3.is_quantifier(t):
-        return True
-    i = t.get_id()
-    if i in seen:
-        return False
-    seen.add(i)
-    return any(_contains_binder(c, seen) for c in t.children())
 
 
 didx = z3.Function('didx', z3.ArraySort(I, Ref), I, Ref, I)   # position of a key in a dict's iteration order
